@@ -49,7 +49,9 @@ META = {
         "order/overlap the limit allows, followed by a saturation probe of A+1 never-finishing messages; in "
         "every quiescent state where the history is finished and only timers are enabled exactly A probe "
         "bodies must be running; in every quiescent state where only timers are enabled, a taken message is being processed "
-        "unless all slots are occupied (progress). distinct_nontrivial = distinct terminal/saturated per-message logs."
+        "unless all slots are occupied (progress); more generally in every quiescent state a taken message waits only while all A "
+        "slots are occupied (work conservation). Level-1 leak histories: pairs (thorough: also triples) of outcomes ending in the same "
+        "loop iteration, then the probe. distinct_nontrivial = distinct terminal/saturated per-message logs."
     ),
     "assumptions": [
         "asyncio semantics as implemented by BaseEventLoop (only clock/selector replaced)",
@@ -57,8 +59,8 @@ META = {
     ],
     "required_counters": ["wiring_cases", "scenarios", "probe_judged"],
     "bounds": {
-        "quick": {"A": [1, 2, 3], "history_len": 2, "L1": "over-admission for A in 1..2"},
-        "thorough": {"A": [1, 2, 3], "history_len": 3, "L1": "over-admission A in 1..3; leak histories len 1"},
+        "quick": {"A": [1, 2, 3], "history_len": 2, "L1": "over-admission for A in 1..2; same-iteration pairs over 5 outcomes, A=2"},
+        "thorough": {"A": [1, 2, 3], "history_len": 3, "L1": "over-admission A in 1..3; leak histories len 1; same-iteration pairs over all outcomes (A=2) and triples over 3 (A=3)"},
     },
 }
 
@@ -86,13 +88,16 @@ class C03World(RecvWorld):
         # progress: when nothing but timers can happen any more, a message that was taken from the broker
         # has begun processing unless every slot is occupied
         menu0 = self.enabled()
-        if self.A is not None and all(e[0] == "timer" for e in menu0) and not self.ret:
+        if self.A is not None and not self.ret:
+            # (work conservation) the runner takes a queued message as soon as it owns a slot, so at
+            # quiescence a taken message waits only while all A slots are occupied - whatever else
+            # is still pending. With only timers left this is a stall; otherwise a lost slot.
             waiting = [k for k in self.taken if k not in self.cb_open and k not in self.cb_done]
             if waiting and len(self.cb_open) < self.A:
                 self.flag(
-                    "C03:stalled-with-free-slot",
+                    "C03:stalled-with-free-slot" if all(e[0] == "timer" for e in menu0) else "C03:free-slot-unused",
                     f"messages {waiting} were taken from the broker but are not being processed although only "
-                    f"{len(self.cb_open)} of {self.A} slots are in use and no external event is pending (history "
+                    f"{len(self.cb_open)} of {self.A} slots are in use at a quiescent state (pending events: {[e for e in menu0 if e[0] != 'timer'][:4]}; history "
                     f"{[m.get('_name') for m in self.msgs[: self.n - self.sc.get('probe', 0)]]})",
                 )
         nprobe = self.sc.get("probe", 0)
@@ -157,10 +162,16 @@ def scenarios(tier: str) -> List[Dict[str, Any]]:
                     # length-3 histories: only those that repeat an outcome at least once or ... keep all for A=2
                     pass
                 out.append(_history_scenario(a, list(hist)))
+    # histories whose two messages end in the same loop iteration (both done-callbacks see both tasks finished)
+    same_tick = ["return", "raise", "timeout", "sync_return", "noresult"] if tier == "quick" else names
+    for h in itertools.product(same_tick, repeat=2):
+        out.append(_history_scenario(2, list(h), level=1))
     if tier == "thorough":
         for a in (1, 2):
             for nm in names:
                 out.append(_history_scenario(a, [nm], level=1))
+        for h in itertools.product(["return", "raise", "timeout"], repeat=3):
+            out.append(_history_scenario(3, list(h), level=1))
     return out
 
 
